@@ -183,6 +183,7 @@ class ConfigMachine(LoggedMachine):
         )
         self.dir = self.ctx.fresh_dir()
         self.nfile = 0
+        self.files = []
         self.failed_load_since = False
         self.flags = set()
 
@@ -190,7 +191,7 @@ class ConfigMachine(LoggedMachine):
         from AEIC.config import Config
 
         Config.reset()
-        if 'failed_then_valid' in self.flags or 'split_table' in self.flags:
+        if self.flags & {'failed_then_valid', 'split_table', 'file_reused'}:
             self.ctx.mark_nontrivial({'log': self.log})
         for f in self.flags:
             self.ctx.label(f)
@@ -237,14 +238,26 @@ class ConfigMachine(LoggedMachine):
                                   f'{where}: {".".join(key)} = {got!r}, expected {want!r}')
 
     # ---- rules
-    @rule(file=st.one_of(st.none(), overlay()), kwargs=overlay())
-    def load_valid(self, file, kwargs):
+    @rule(file=st.one_of(st.none(), overlay()), kwargs=overlay(), reuse=st.integers(0, 3))
+    def load_valid(self, file, kwargs, reuse=0):
         from AEIC.config import Config
 
-        self.op('load_valid', file=file, kwargs=kwargs)
+        # Re-use a configuration file written earlier in this history (same path,
+        # unchanged on disk), so that caching of parsed files would be exposed.
+        if reuse and self.files:
+            cfg_prev, file = self.files[(reuse - 1) % len(self.files)]
+        else:
+            cfg_prev = None
+        self.op('load_valid', file=file, kwargs=kwargs, reuse=reuse)
         self.ctx.evaluations += 1
         file_over = file or {}
-        cfgfile = self._write(_toml(file)) if file is not None else None
+        if cfg_prev is not None:
+            cfgfile = cfg_prev
+            self.flags.add('file_reused')
+        else:
+            cfgfile = self._write(_toml(file)) if file is not None else None
+            if cfgfile is not None:
+                self.files.append((cfgfile, file))
         eff = merge_leafwise(merge_leafwise(self.defaults, file_over), kwargs)
         if file is not None:
             for t in ('emissions', 'weather'):
@@ -273,14 +286,17 @@ class ConfigMachine(LoggedMachine):
             self.flags.add('failed_then_valid')
         self._values_check('after load_valid')
 
-    @rule(kind=st.sampled_from(INVALID_KINDS), extra=overlay())
-    def load_invalid(self, kind, extra):
+    @rule(kind=st.sampled_from(INVALID_KINDS), extra=overlay(), reuse=st.integers(0, 2))
+    def load_invalid(self, kind, extra, reuse=0):
         from AEIC.config import Config
 
-        self.op('load_invalid', kind=kind, extra=extra)
+        self.op('load_invalid', kind=kind, extra=extra, reuse=reuse)
         self.ctx.evaluations += 1
         kwargs = copy.deepcopy(extra)
         cfgfile = None
+        if reuse and self.files and kind in ('bad_enum', 'bad_type', 'missing_perf', 'missing_engine', 'missing_weather'):
+            cfgfile = self.files[(reuse - 1) % len(self.files)][0]  # a valid file plus invalid kwargs
+            self.flags.add('file_reused')
         if kind == 'bad_enum':
             kwargs.setdefault('emissions', {})['nox_method'] = 'bogus'
         elif kind == 'bad_type':
